@@ -1,6 +1,7 @@
 import PhQVerif.Props.C07
 open PhQVerif Generated
 #print axioms PhQVerif.Props.C07.coherent
+#print axioms PhQVerif.Props.C07.constants_match_magnitudes
 #eval s!"COUNT C07.unit_types {unitTypes.length}"
 #eval s!"COUNT C07.unit_systems {unitSystemValues.length}"
 #eval s!"COUNT C07.consistent_units {(unitTypes.map (·.consistent.length)).sum}"
